@@ -49,8 +49,26 @@ def tamper_traces():
     return ok
 
 
+def action_coverage():
+    """-coverage 1 on small configurations: every action of the specification is taken at least once"""
+    ok = True
+    # (TLC's coverage mode runs out of memory on the recursive execution modules; the small state machines are checked)
+    for module, cfg in (("MC_registry.tla", "MC_registry_2.cfg"), ("MC_cache.tla", "MC_env.cfg")):
+        try:
+            res = tlc.run(module, cfg, workers=1, coverage=True, heap="6g", timeout=600)
+        except tlc.TLCError as e:
+            print("coverage %s: skipped (%s)" % (cfg, str(e)[:80]))
+            continue
+        never = [a for a, (d, t) in res.coverage.items() if t == 0]
+        print("coverage %s: %d actions, never taken: %s" % (cfg, len(res.coverage), never or "none"))
+        ok &= bool(res.coverage) and not never
+    return ok
+
+
 def main(argv):
     ok = True
+    if "--fast" not in argv:
+        ok &= action_coverage()
     try:
         ok &= tamper_traces()
     except tlc.TLCError as e:
